@@ -348,6 +348,9 @@ type GroupModel struct {
 	N     uint64
 	Admin map[uint64]string
 	Left  map[uint64]bool // groups a member has left (the generator's groups have one member)
+	// Extreme: groups whose members' weights are many thousand orders of magnitude apart
+	Extreme map[uint64]bool
+	Props   uint64 // proposals submitted so far
 }
 
 type Models struct {
@@ -428,7 +431,10 @@ func (m *Models) Clone() *Models {
 	c := *m
 	c.Ent, c.Wrk, c.Bcn, c.Str = m.Ent.clone(), m.Wrk.clone(), m.Bcn.clone(), m.Str.clone()
 	if m.Grp != nil {
-		g := &GroupModel{N: m.Grp.N, Admin: map[uint64]string{}, Left: map[uint64]bool{}}
+		g := &GroupModel{N: m.Grp.N, Props: m.Grp.Props, Admin: map[uint64]string{}, Left: map[uint64]bool{}, Extreme: map[uint64]bool{}}
+		for k, v := range m.Grp.Extreme {
+			g.Extreme[k] = v
+		}
 		for k, v := range m.Grp.Admin {
 			g.Admin[k] = v
 		}
@@ -862,6 +868,12 @@ func (m *Models) afterTx(w *World, tx *TxCtx) {
 		case *group.MsgCreateGroupWithPolicy:
 			m.Grp.N++
 			m.Grp.Admin[m.Grp.N] = gm.Admin
+			if len(gm.Members) > 1 {
+				if m.Grp.Extreme == nil {
+					m.Grp.Extreme = map[uint64]bool{}
+				}
+				m.Grp.Extreme[m.Grp.N] = true
+			}
 			if got := eventAttr(tx.Resp.Events, "cosmos.group.v1.EventCreateGroupPolicy", "address"); got != PolicyAddr(m.Grp.N).String() {
 				w.Ev("GROUP-POLICY-ADDRESS-MISMATCH %d %s", m.Grp.N, got)
 				w.Probe("harness.group-policy-address-mismatch")
@@ -874,6 +886,7 @@ func (m *Models) afterTx(w *World, tx *TxCtx) {
 			m.Grp.Left[gm.GroupId] = true
 			continue
 		case *group.MsgSubmitProposal:
+			m.Grp.Props++
 			// executed inside this transaction only if the proposal passed and all its messages
 			// succeeded (EXEC_TRY); a failed execution leaves the transaction successful
 			if eventAttr(tx.Resp.Events, "cosmos.group.v1.EventExec", "result") == "PROPOSAL_EXECUTOR_RESULT_SUCCESS" {
